@@ -294,6 +294,20 @@ where
 
         let support_size_minus_one = support.end().wrapping_sub(support.start()).as_();
         let max_probability = Probability::max_value() >> (Probability::BITS - PRECISION);
+
+        // The cast to `Probability` above truncates if `Symbol` is wider than `Probability`, so
+        // we also have to check the size of the support in a type that is wide enough for it.
+        // Otherwise, a too large support could alias to a small one, e.g., `0..=65536` for
+        // `Probability = u16` would be treated as if it contained only a single symbol.
+        let exact_support_size_minus_one = match (support.end().to_i128(), support.start().to_i128())
+        {
+            (Some(end), Some(start)) => end.wrapping_sub(start) as u128,
+            _ => support.end().to_u128().unwrap() - support.start().to_u128().unwrap(),
+        };
+        assert!(
+            exact_support_size_minus_one <= max_probability.to_u128().unwrap(),
+            "The support is too large to assign a nonzero probability to each element."
+        );
         let free_weight = max_probability
             .checked_sub(&support_size_minus_one)
             .expect("The support is too large to assign a nonzero probability to each element.")
